@@ -124,7 +124,7 @@ JudgeLive(r, o) ==
   Bad(o.size = n, "SIZE")
   \cup Bad((o.empty = 1) = (n = 0) /\ (o.bie = 1) = (n = 0), "EMPTY")
   \cup Bad(o.cap = r.cap, "CAP")
-  \cup Bad(o.fx = F, "FIXED_SIZE")
+  \cup Bad(o.fx = r.fx, "FIXED_SIZE")
   \cup Bad(o.al = r.al, "GET_ALLOCATOR")
   \cup Bad(\A q \in 1..Len(o.pn) : o.pn[q] = o.pn[1], "PATHS_DISAGREE")
   \cup Bad(shape, "SHAPE")
@@ -147,7 +147,7 @@ JudgeLive(r, o) ==
         THEN Bad(LO!ElemsInOrder(P, E, o.db, o.de), "ORDER")
              \cup Bad(LO!ElemsInBlock(P, E, o.db, o.de, o.bsz), "BOUNDS")
              \cup Bad(LO!ElemsAligned(P, E, o.res), "ALIGN")
-             \cup Bad(LO!ElemsTight(P, F, E, Vss(r), o.db), "TIGHT")
+             \cup Bad(LO!ElemsTight(P, r.fx, E, Vss(r), o.db), "TIGHT")
              \cup Bad(n > 0 => o.db = E[1].rb, "DATA_BEGIN")
              \cup Bad((~HasVarying /\ n = r.cap /\ n > 0) => LO!AlignUp(E[n].re - o.db, MA) = o.mc, "FULL_FOOTPRINT")
         ELSE {})
